@@ -4,6 +4,7 @@ import (
 	"context"
 	"errors"
 	"fmt"
+	"regexp"
 	"runtime"
 	"strings"
 	"sync"
@@ -31,6 +32,7 @@ type Stmt struct {
 	Raw     []byte    `json:"raw,omitempty"` // log: payload (repeated Rep times) instead of the synthetic one
 	Rep     int       `json:"rep,omitempty"`
 	Shared  bool      `json:"shared,omitempty"` // repeat: one actions map for all invocations
+	Vary    bool      `json:"vary,omitempty"`   // sig: the message contains something that differs from execution to execution (a counter, an address)
 	Empty   bool      `json:"empty,omitempty"`  // sig: signalled with an empty message (t.Error(), t.Errorf(""), panic(""))
 }
 
@@ -515,6 +517,11 @@ func (x *Interp) signal(fr *frame, st *Stmt) {
 			base = "" // a failure is a failure whatever its message
 		}
 	}
+	if st.Vary && base != "" {
+		// "~v<n>~": a part of the message that is different in every execution (a sequence number, a pointer, a
+		// duration); comparisons of the harness leave it out (stripVary)
+		base += fmt.Sprintf(" ~v%d~", atomic.AddInt64(&varyCounter, 1))
+	}
 	msg := base // what the library is expected to show for this failure
 	switch st.Kind {
 	case "FailNow":
@@ -539,6 +546,19 @@ func (x *Interp) signal(fr *frame, st *Stmt) {
 	}
 	x.ev(Event{K: "sig", Scope: fr.sc.id, Name: st.Kind, Class: class, Site: site, Where: fr.where, Msg: msg})
 	sites[st.Site%numSites](fr.sc.t, st.Kind, base, st.Site)
+}
+
+var (
+	varyCounter int64
+	reVary      = regexp.MustCompile(` ~v\d+~`)
+)
+
+// stripVary removes the parts of failure messages that are deliberately different in every execution.
+func stripVary(s string) string {
+	if !strings.Contains(s, "~v") {
+		return s
+	}
+	return reVary.ReplaceAllString(s, "")
 }
 
 // cleanupEntry is the body of every registered cleanup callback. It is a named method (not a closure of execStmt,
@@ -883,7 +903,7 @@ func (inv *Invocation) finalize() {
 	case anyAbnormal && (p.kind == "fatal" || p.kind == "panic"):
 		inv.End = p.kind
 		inv.Site = p.ev.Site
-		inv.WinMsg = p.ev.Msg
+		inv.WinMsg = stripVary(p.ev.Msg)
 		inv.WinKind = p.ev.Name
 	case inv.NVA:
 		inv.End = "nva"
